@@ -59,7 +59,7 @@ PROPS = {
         title="Debug renders the effective shape exactly like core::fmt's builders",
         theorems=[],
         streams=[stream('debug', 'items:Debug', force=['Debug'], kinds=('struct', 'enum'))],
-        k2=['debug'], k2_n=(160, 1500),
+        k2=['debug'], k2_n=(260, 2000),
         k2_also=[('generics', 'Debug', (40, 300)), ('bounds', 'Debug', (40, 300))],
         direct=[('rejections', (1500, 15000), dict(pool=['Debug'] + ['Clone', 'Debug'], must=['Debug'], key='c06r'))],
     ),
